@@ -7,10 +7,12 @@ package main
 
 import (
 	"bufio"
+	"bytes"
 	"fmt"
 	"io"
 	"net/url"
 	"os"
+	"os/exec"
 	"os/signal"
 	"path/filepath"
 	"regexp"
@@ -40,8 +42,9 @@ type session struct {
 	modified    bool
 	busyDone    bool
 	lastEvent   *sim.Event
-	curFault    string // kind of fault applied to the line being processed
-	joined      bool   // current line arrived in the same packet as the previous one
+	curFault    string       // kind of fault applied to the line being processed
+	joined      bool         // current line arrived in the same packet as the previous one
+	hold        bytes.Buffer // output not yet sent
 	unresBefore map[string]bool
 }
 
@@ -56,8 +59,9 @@ func main() {
 		os.Exit(2)
 	}
 	s := &session{spec: spec, in: bufio.NewReader(os.Stdin),
-		out: bufio.NewWriter(os.Stdout), mode: "exec", start: time.Now(),
+		mode: "exec", start: time.Now(),
 		reload: "none", modified: spec.Modified}
+	s.out = bufio.NewWriter(&s.hold)
 	if spec.ReloadPending {
 		s.reload = "pending"
 	}
@@ -92,10 +96,39 @@ func (s *session) w(format string, args ...any) {
 	fmt.Fprintf(s.out, format, args...)
 }
 
-func (s *session) flush() { s.out.Flush() }
+func (s *session) flush() {
+	s.out.Flush()
+	if s.hold.Len() > 0 {
+		os.Stdout.Write(s.hold.Bytes())
+		s.hold.Reset()
+	}
+}
+
+// dieBefore: the simulated ssh client dies (connection reset) while what
+// the device printed last - typically a prompt - is still on its way: the
+// process the tool watches exits at once, a helper that survives the
+// hang-up delivers the pending text a moment later. The tool then answers
+// a prompt of a peer that is gone.
+func (s *session) dieBefore() {
+	s.out.Flush()
+	text := s.hold.String()
+	s.ord++
+	s.curFault = "die-before"
+	s.event("<peer-died-with-output-pending>", "dead", "fault:die-before")
+	h := exec.Command("/bin/sh", "-c", `trap "" HUP; sleep 0.25; printf '%s' "$SIM_TEXT"; sleep 0.8`)
+	h.Env = append(os.Environ(), "SIM_TEXT="+text)
+	h.Stdout = os.Stdout
+	h.Start()
+	os.Exit(0)
+}
 
 // readLine returns next received line without line terminator.
 func (s *session) readLine() string {
+	for i := range s.spec.Faults {
+		if f := &s.spec.Faults[i]; f.Kind == "die-before" && f.Ord == s.ord+1 {
+			s.dieBefore()
+		}
+	}
 	s.flush()
 	s.joined = s.in.Buffered() > 0
 	s.curFault = ""
